@@ -166,6 +166,9 @@ KEYWORDS = {"if", "for", "while", "switch", "return", "sizeof", "catch", "static
             "double", "float", "short", "signed", "const", "using", "namespace", "typedef", "struct", "enum"}
 
 
+NORETURN = {"ppl_unreachable", "ppl_unreachable_msg", "abort", "__builtin_unreachable"}
+
+
 def match_close(toks, i, op, cl):
     """toks[i] == op; returns index of the matching closer."""
     d = 0
@@ -247,6 +250,8 @@ def stmt_returns(s):
     if not s:
         return False
     if s[0] in ("return", "throw"):
+        return True
+    if any(t in NORETURN for t in s):          # PPL_UNREACHABLE: a [[noreturn]] call
         return True
     if s[0] == "{":
         j = match_close(s, 0, "{", "}")
@@ -375,7 +380,7 @@ def parse_tu(text, fname):
                         b = match_close(toks, a + 1, "{", "}")
                         rec["chain"].append(parse_handler(toks[i + 2:a], toks[a + 2:b]))
                         i = b + 1
-                (helpers if (in_ns or rec["static"]) else entries).append(rec)
+                (helpers if (in_ns or rec["static"] or rec["inline"]) else entries).append(rec)
                 decl = []
                 continue
             decl.append(t); i += 1
@@ -511,7 +516,7 @@ def coq_clause(h):
 def write_coq(facts, path):
     chains = {}
     lines = ["(* GENERATED by tools/translate_cif.py from the regenerated C interface -- do not edit. *)",
-             "From Coq Require Import List String ZArith.", "Require Import PPLV.CIface.Exn.",
+             "From Coq Require Import List String ZArith.", "Require Import PPLV.CIface.Exn PPLV.CIface.Entries.",
              "Import ListNotations.", "Open Scope string_scope.", ""]
     def chain_id(ch):
         key = json.dumps(ch, sort_keys=True)
@@ -520,7 +525,7 @@ def write_coq(facts, path):
         return chains[key][0]
     ent_lines = []
     files = sorted({e["file"] for e in facts["entries"]})
-    for e in facts["entries"]:
+    for e in sorted(facts["entries"], key=lambda e: e["name"]):
         cid = chain_id(e["chain"])
         calls = "[]" if e["has_try"] else "[%s]" % "; ".join(coq_str(c) for c in e["calls"])
         ent_lines.append("  mkEntry %s %d %s %s %s %s" % (coq_str(e["name"]), files.index(e["file"]),
@@ -542,7 +547,7 @@ def write_coq(facts, path):
     lines.append("Definition entries : list entry := %s." % (" ++ ".join(chunks) if chunks else "[]"))
     lines.append("Definition entries_count : nat := %d." % len(ent_lines))
     lines.append("")
-    pl = [coq_str(p["name"]) for p in facts["protos"]]
+    pl = [coq_str(n) for n in sorted(p["name"] for p in facts["protos"])]
     chunks = []
     for k in range(0, len(pl), 400):
         nm = "protos_%d" % (k // 400)
@@ -604,3 +609,35 @@ if __name__ == "__main__":
     print("no-return:", [e["name"] for e in facts["entries"] if not e["body_returns"]])
     print("enum", facts["enums"].get("ppl_enum_error_code"))
     print("helpers", [(h["name"], h["calls"]) for h in facts["helpers"]])
+
+
+# ---------------------------------------------------------------------------------------------------
+# compiling the regenerated interface (cached beside the generated sources, keyed by the tree hash)
+# ---------------------------------------------------------------------------------------------------
+
+def build_objects(top, gen, libdir, names, log=lambda s: None):
+    """names: e.g. ["implementation_common", "Polyhedron"]; returns the list of object files."""
+    import concurrent.futures as cf
+    odir = os.path.join(top, "obj-" + os.path.basename(libdir))
+    os.makedirs(odir, exist_ok=True)
+    flags = ["-std=c++11", "-DHAVE_CONFIG_H"] + include_flags(gen, libdir) + ["-O1", "-frounding-math", "-w"]
+    todo, objs = [], []
+    for n in names:
+        o = os.path.join(odir, "ppl_c_%s.o" % n)
+        objs.append(o)
+        if not os.path.exists(o):
+            todo.append((n, o))
+    def one(no):
+        n, o = no
+        rc, out = common.sh(["g++"] + flags + ["-c", os.path.join(gen, "ppl_c_%s.cc" % n), "-o", o + ".tmp"], timeout=1800)
+        if rc != 0:
+            raise common.BuildError("compiling regenerated ppl_c_%s.cc failed:\n%s" % (n, out[-3000:]))
+        os.rename(o + ".tmp", o)
+    if todo:
+        import time
+        t0 = time.time()
+        with common.Lock("cif-obj"):
+            with cf.ThreadPoolExecutor(max_workers=max(1, common.NCPU // 2)) as ex:
+                list(ex.map(one, todo))
+        log("compiled %d regenerated interface files in %.1fs" % (len(todo), time.time() - t0))
+    return objs
